@@ -452,28 +452,34 @@ Proof.
 Qed.
 
 (* ---------- C4. membership is invariant under the per-quad reversal and scaling ---------- *)
+Lemma ltb_opp_l x : (- x <? 0) = (0 <? x).
+Proof. destruct (- x <? 0) eqn:E1, (0 <? x) eqn:E2; lia. Qed.
+Lemma ltb_opp_r x : (0 <? - x) = (x <? 0).
+Proof. destruct (0 <? - x) eqn:E1, (x <? 0) eqn:E2; lia. Qed.
+
 Lemma in_para_rev l q : in_para (rev l) q = in_para l q.
 Proof.
   destruct l as [|a [|b [|c [|d [|e l]]]]]; try reflexivity.
   - cbn [rev app in_para].
     rewrite (cross_swap12 c d q), (cross_swap12 b c q), (cross_swap12 a b q), (cross_swap12 d a q).
-    destruct (0 <? cross a b q) eqn:E1, (0 <? cross b c q) eqn:E2, (0 <? cross c d q) eqn:E3, (0 <? cross d a q) eqn:E4,
-             (cross a b q <? 0) eqn:F1, (cross b c q <? 0) eqn:F2, (cross c d q <? 0) eqn:F3, (cross d a q <? 0) eqn:F4;
-    repeat match goal with |- context [?x <? ?y] => let G := fresh in destruct (x <? y) eqn:G end; cbn [andb orb]; lia.
+    rewrite !ltb_opp_l, !ltb_opp_r.
+    generalize (0 <? cross a b q) (0 <? cross b c q) (0 <? cross c d q) (0 <? cross d a q)
+               (cross a b q <? 0) (cross b c q <? 0) (cross c d q <? 0) (cross d a q <? 0).
+    intros [] [] [] [] [] [] [] []; reflexivity.
   - (* five or more points: neither list has exactly four *)
     assert (H : forall m : path, (5 <= length m)%nat -> in_para m q = false).
     { intros [|x1 [|x2 [|x3 [|x4 [|x5 m]]]]] Hm; cbn [length] in Hm; try lia; reflexivity. }
     rewrite !H; [reflexivity|cbn [length]; lia|rewrite rev_length; cbn [length]; lia].
 Qed.
 
-Lemma in_para_orient4_scale P q : in_para (map (pscale 2) (orient4 P)) q = in_para (map (pscale 2) P) q.
+Lemma in_para_orient4_scale k P q : in_para (map (pscale k) (orient4 P)) q = in_para (map (pscale k) P) q.
 Proof.
   destruct (orient4_rel P) as [-> | ->]; [reflexivity|]. rewrite map_rev. apply in_para_rev.
 Qed.
 
-Lemma in_some_orient4_scale Q q : in_some (scale2 (map orient4 Q)) q = in_some (scale2 Q) q.
+Lemma in_some_orient4_scale k Q q : in_some (scalek k (map orient4 Q)) q = in_some (scalek k Q) q.
 Proof.
-  unfold in_some, scale2. induction Q as [|P Q IH]; [reflexivity|].
+  unfold in_some, scalek. induction Q as [|P Q IH]; [reflexivity|].
   cbn [map existsb]. rewrite IH, in_para_orient4_scale. reflexivity.
 Qed.
 
@@ -504,12 +510,12 @@ Proof.
 Qed.
 
 (* the oracle entry point: the evaluated quads are the model's = the specification's parallelograms *)
-Theorem check_minkowski_sound pat pth s c tn td out2 pts2 ev :
-  check_minkowski pat pth s c tn td out2 pts2 = MOk ev -> mink_fails ev = [] ->
+Theorem check_minkowski_sound pat pth s c k tn td out2 pts2 ev :
+  check_minkowski pat pth s c k tn td out2 pts2 = MOk ev -> mink_fails ev = [] ->
   forall q, In q pts2 ->
-  far_from tn td (edges_closed (scale2 (map orient4 (para_quads s c pat pth)))) q = true ->
-  (wn_paths out2 q <> 0 <-> in_some (scale2 (para_quads s c pat pth)) q = true)
-  /\ (in_some (scale2 (para_quads s c pat pth)) q = true -> wn_paths out2 q = 1).
+  far_from tn td (edges_closed (scalek k (map orient4 (para_quads s c pat pth)))) q = true ->
+  (wn_paths out2 q <> 0 <-> in_some (scalek k (para_quads s c pat pth)) q = true)
+  /\ (in_some (scalek k (para_quads s c pat pth)) q = true -> wn_paths out2 q = 1).
 Proof.
   unfold check_minkowski. rewrite minkowski_spec. intros E. injection E as <-. intros HF q Hq Hfar.
   rewrite <- in_some_orient4_scale. apply (check_mink_region tn td _ out2 pts2 HF q Hq Hfar).
@@ -519,18 +525,18 @@ Qed.
 Lemma open_edges_last_first l x : l <> [] -> open_edges (last l x :: l) = (last l x, hd x l) :: open_edges l.
 Proof. destruct l as [|a l]; [congruence|]. intros _. reflexivity. Qed.
 
-Lemma cyc_edges_split a l : cyc_edges (a :: l) = open_edges (a :: l) ++ [(last (a :: l) a, a)].
+Lemma open_edges_snoc1 x y m : open_edges ((x :: m) ++ [y]) = open_edges (x :: m) ++ [(last (x :: m) x, y)].
 Proof.
-  unfold cyc_edges. revert a. induction l as [|b l IH]; intros a; [reflexivity|].
-  cbn [app]. rewrite open_edges_cons2.
-  change ((b :: l) ++ [a]) with ((b :: l) ++ [a]). 
-  assert (G : forall x y m, open_edges ((x :: m) ++ [y]) = open_edges (x :: m) ++ [(last (x :: m) x, y)]).
-  { clear. intros x y m. revert x. induction m as [|z m IHm]; intros x; [reflexivity|].
-    cbn [app]. rewrite !open_edges_cons2. cbn [app] in IHm. rewrite IHm.
-    rewrite (last_indep (z :: m) z x) by discriminate. reflexivity. }
-  rewrite (G b a l). rewrite open_edges_cons2. cbn [app]. f_equal. f_equal.
-  rewrite (last_indep (b :: l) b a) by discriminate. reflexivity.
+  revert x. induction m as [|z m IHm]; intros x; [reflexivity|].
+  change ((x :: z :: m) ++ [y]) with (x :: ((z :: m) ++ [y])).
+  change ((z :: m) ++ [y]) with (z :: (m ++ [y])). rewrite open_edges_cons2.
+  change (z :: (m ++ [y])) with ((z :: m) ++ [y]). rewrite IHm.
+  rewrite open_edges_cons2. cbn [app].
+  rewrite (last_indep (z :: m) z x) by discriminate. reflexivity.
 Qed.
+
+Lemma cyc_edges_split a l : cyc_edges (a :: l) = open_edges (a :: l) ++ [(last (a :: l) a, a)].
+Proof. unfold cyc_edges. apply open_edges_snoc1. Qed.
 
 Theorem cyc_edges_last_perm p : Permutation (cyc_edges_last p) (cyc_edges p).
 Proof.
@@ -565,7 +571,8 @@ Proof.
     change (2 ^ 60) with 1152921504606846976 in *.
     unfold area_ub_free, para. cbn [fst snd cyc_edges app open_edges forallb term_i64].
     rewrite !andb_true_r.
-    repeat (apply andb_true_intro; split); apply in_i64_small; change (2 ^ 62) with 4611686018427387904;
+    unfold in_i64. change (2 ^ 63) with 9223372036854775808.
+    repeat (apply andb_true_intro; split); first [apply Z.leb_le | apply Z.ltb_lt];
     destruct s, a, a', b, b'; unfold mop, padd, psub, px, py in *; cbn [fst snd] in *; lia.
 Qed.
 
@@ -578,4 +585,100 @@ Proof.
   split.
   - intros v [<- | [<- | [<- | []]]]; unfold px, py; cbn [fst snd]; split; vm_compute; discriminate.
   - eexists. split; [vm_compute; reflexivity|reflexivity].
+Qed.
+
+(* the bound in [minkowski_quads_positive] cannot be raised to 2^27: the binary64 Area of a thin quad
+   (exact twice-area -2) evaluates to a non-negative double, so the quad is emitted with negative orientation *)
+Theorem quads_positive_fails_beyond :
+  exists pat pth quads q,
+    coords_le (2 ^ 27) pat /\ coords_le (2 ^ 27) pth /\
+    minkowski pat pth true false = MOk quads /\ In q quads /\ area2 q < 0.
+Proof.
+  exists [(0, 0); (-75110867, 4266284)], [(56941013, -102020953); (26228893, -100276510)].
+  eexists. exists [(-18169854, -97754669); (-48881974, -96010226); (26228893, -100276510); (56941013, -102020953)].
+  split; [|split; [|split; [vm_compute; reflexivity|split; [left; reflexivity|vm_compute; reflexivity]]]].
+  - intros v [<- | [<- | []]]; unfold px, py; cbn [fst snd]; split; vm_compute; discriminate.
+  - intros v [<- | [<- | []]]; unfold px, py; cbn [fst snd]; split; vm_compute; discriminate.
+Qed.
+
+(* ---------- packaged statements used by props/Properties_C19.v ---------- *)
+Theorem minkowski_quads_spec pat pth s c :
+  exists quads, minkowski pat pth s c = MOk quads
+    /\ quads = map orient4 (para_quads s c pat pth)
+    /\ Forall2 rev_rel quads (para_quads s c pat pth)
+    /\ length quads = (length (path_edges c pth) * length (cyc_edges_last pat))%nat.
+Proof.
+  eexists. split; [apply minkowski_spec|]. split; [reflexivity|]. split.
+  - apply Forall2_map_l, orient4_rel.
+  - rewrite map_length. apply length_para_quads.
+Qed.
+
+Lemma cyc_edges_last_cases e p d :
+  In e (cyc_edges_last p) -> (p <> [] /\ e = (last p d, hd d p)) \/ In e (open_edges p).
+Proof.
+  destruct p as [|a l]; [intros []|]. unfold cyc_edges_last.
+  rewrite open_edges_last_first by discriminate. intros [<- | H]; [left|right; exact H].
+  split; [discriminate|]. cbn [hd]. rewrite (last_indep (a :: l) a d) by discriminate. reflexivity.
+Qed.
+
+(* which pairs of points are path edges: consecutive points, and the closing pair (last, first) iff closed *)
+Theorem path_edges_consecutive c pth e d :
+  In e (path_edges c pth) ->
+  (exists i, nth_error pth i = Some (fst e) /\ nth_error pth (S i) = Some (snd e))
+  \/ (c = true /\ pth <> [] /\ e = (last pth d, hd d pth)).
+Proof.
+  destruct c; cbn [path_edges]; intros H.
+  - destruct (cyc_edges_last_cases e pth d H) as [[N E] | H']; [right; auto|left; apply open_edges_consecutive; exact H'].
+  - left. apply open_edges_consecutive. exact H.
+Qed.
+
+Theorem para_quads_parallelogram s c pat pth q :
+  In q (para_quads s c pat pth) ->
+  exists a a' b b',
+    In (a, a') (path_edges c pth) /\ In (b, b') (cyc_edges_last pat) /\
+    q = [mop s a b; mop s a' b; mop s a' b'; mop s a b'] /\
+    psub (mop s a' b) (mop s a b) = psub a' a /\ psub (mop s a' b') (mop s a b') = psub a' a /\
+    psub (mop s a b') (mop s a b) = pdir s (b, b') /\ psub (mop s a' b') (mop s a' b) = pdir s (b, b') /\
+    area2 q = 2 * vcross (psub a' a) (pdir s (b, b')).
+Proof.
+  intros H. apply in_para_quads in H. destruct H as ([a a'] & [b b'] & He & Hf & ->).
+  exists a, a', b, b'. split; [exact He|]. split; [exact Hf|]. split; [reflexivity|].
+  destruct (para_is_parallelogram s a a' b b') as (p0 & p1 & p2 & p3 & E & -> & -> & -> & -> & H1 & H2 & H3 & H4).
+  repeat split; try assumption. apply para_area2.
+Qed.
+
+(* a real run (MinkowskiSum of a triangle along a closed triangle; the result has a hole): the checker accepts it *)
+(* the membership test agrees with the winding numbers of the parallelograms on that run *)
+Example check_minkowski_sat :
+  exists ev, check_minkowski [(0,0); (20,0); (0,20)] [(100,100); (200,100); (150,300)] true true 2 4 1
+               (scalek 2 [[(200,100); (220,100); (170,300); (150,320); (100,120); (100,100)]; [(125,120); (160,260); (195,120)]])
+               [(301,401); (211,221); (1001,1001); (200,200)] = MOk ev
+             /\ mink_fails ev = [] /\ length ev = 3%nat /\ length (mink_inside ev) = 1%nat.
+Proof. eexists. split; [vm_compute; reflexivity|]. repeat split. Qed.
+
+(* ... and rejects the result with the hole filled *)
+Example check_minkowski_rejects :
+  exists ev, check_minkowski [(0,0); (20,0); (0,20)] [(100,100); (200,100); (150,300)] true true 2 4 1
+               (scalek 2 [[(200,100); (220,100); (170,300); (150,320); (100,120); (100,100)]])
+               [(301,401); (211,221); (1001,1001); (200,200)] = MOk ev
+             /\ mink_fails ev = [((301,401), 1, false)].
+Proof. eexists. split; [vm_compute; reflexivity|]. reflexivity. Qed.
+
+Theorem minkowski_partial pat pth s c :
+  exists quads,
+    minkowski pat pth s c = MOk quads
+    /\ Forall2 rev_rel quads (para_quads s c pat pth)
+    /\ (forall k ptk, in_some (scalek k quads) ptk = in_some (scalek k (para_quads s c pat pth)) ptk)
+    /\ (pat = [] \/ pth = [] -> quads = [])
+    /\ (forall k tn td outk ptsk ev,
+          check_minkowski pat pth s c k tn td outk ptsk = MOk ev -> mink_fails ev = [] ->
+          forall q, In q ptsk -> far_from tn td (edges_closed (scalek k quads)) q = true ->
+          (wn_paths outk q <> 0 <-> in_some (scalek k (para_quads s c pat pth)) q = true)
+          /\ (in_some (scalek k (para_quads s c pat pth)) q = true -> wn_paths outk q = 1)).
+Proof.
+  exists (map orient4 (para_quads s c pat pth)).
+  split; [apply minkowski_spec|]. split; [apply Forall2_map_l, orient4_rel|].
+  split; [intros; apply in_some_orient4_scale|]. split.
+  - intros H. destruct (minkowski_empty pat pth s c H) as [_ ->]. reflexivity.
+  - intros k tn td out2 pts2 ev. apply check_minkowski_sound.
 Qed.
